@@ -125,6 +125,29 @@ def check(run):
             sc.exp_results.append("Ok:Member:04A1B2C3D4E5F6")
             scs.append(sc)
             kinds["handshake-aborted:" + which] = kinds.get("handshake-aborted:" + which, 0) + 1
+    # several clients in ONE process, configured with DIFFERENT serial numbers (the harness runs its cases one after the other in
+    # one process): each client vets its connections against ITS OWN configured serial — a terminal that reports the serial an
+    # earlier client was configured with is the wrong device for this one
+    for mine, reported in (("AB12CD34", "AB12CD34"), ("AB12CD34", cc.SERIAL), ("00000001", "00000001"), ("00000001", "AB12CD34"),
+                           (cc.SERIAL, "AB12CD34"), (cc.SERIAL, cc.SERIAL)):
+        sc = cc.Scenario(S, {"serial": mine, "max": 2})
+        cfg = sc.cfg
+        if mine.lower() == reported.lower():
+            sc.start()
+            sc.ops.append("read_card")
+            sc.exchange(S.read_card_req(cfg["rct"]), [S.status_info({0x27: 0, 0x06: {"uuid": "04a1b2c3d4e5f6"}})])
+            sc.exp_results.append("Ok:Member:04A1B2C3D4E5F6")
+        else:
+            # every connection offered belongs to the other terminal: registration and identity query, never a command
+            for k in range(3):
+                if k:
+                    sc.new_conn()
+                sc.handshake(reported)
+            sc.wrong_serial_conn = 0
+            sc.ops.append("read_card")
+            sc.exp_results.append(None)
+        scs.append(sc)
+        kinds["other-configured-serial"] = kinds.get("other-configured-serial", 0) + 1
     cases, mo, io = run_scenarios(run, scs, "c09")
     diffs = judge(run, scs, cases, mo, io,
                   "after a failed exchange (close, garbage, NACK, silence, truncated packet) nothing more is written to that connection; the retry runs on a NEW "
